@@ -143,6 +143,8 @@ SEQUENCE_decode_oer(const asn_codec_ctx_t *opt_codec_ctx,
             RETURN(RC_FAIL);
         }
         preamble->nboff = has_extensions_bit;
+        /* The extension bit is the first bit of the (multi-octet) preamble */
+        ctx->context = has_extensions_bit && (*(const uint8_t *)ptr & 0x80);
         ctx->ptr = preamble;
         ADVANCE(preamble_bytes);
     }
@@ -234,18 +236,12 @@ SEQUENCE_decode_oer(const asn_codec_ctx_t *opt_codec_ctx,
         /* Cleanup preamble. */
         asn_bit_data_t *preamble = ctx->ptr;
         asn_bit_data_t *extadds;
-        int has_extensions_bit = (specs->first_extension >= 0);
-        int extensions_present =
-            has_extensions_bit
-            && (preamble->buffer == NULL
-                || (((const uint8_t *)preamble->buffer)[0] & 0x80));
+        int extensions_present = ctx->context; /* Remembered in phase 0 */
         uint8_t unused_bits;
         size_t len = 0;
         ssize_t len_len;
 
         ASN_DEBUG("OER SEQUENCE %s Decoding PHASE 2", td->name);
-
-        preamble->buffer = 0; /* Will do extensions_present==1 next time. */
 
         if(!extensions_present) {
             ctx->phase = 10;
